@@ -227,7 +227,7 @@ def run(ck):
     check_view(ck, view)
     check_native_header(ck)
     ck.require(ck.prog.const_value("zk_merkle::MAX_DEPTH") == 16, "ITEM", "max-depth", "MAX_DEPTH == 16 (the property's 'at most 16 levels')")
-    if ck.tier == "thorough":
+    if True:   # both tiers: the `profile` feature swaps in `new_profiled`, a second constructor of the same circuit
         prog2 = ck.extract("profile")
         v2 = leaf.LeafView(ck, prog2, entry=r"WormholeCircuit::new_profiled$")
         ck2prog = ck.prog
